@@ -237,6 +237,22 @@ def records(drv):
     r2 = copy.deepcopy(rec); r2[2]["out"] = "panic: runtime error: index out of range"
     ok, why = records_accept("KmpTrace", "KmpTrace.cfg", "kmp_trace.ndjson", [json.dumps(x) for x in r2])
     report("kmp", "recorded panic", not ok, why)
+    # Assemble
+    box = lambda x0, y0, x1, y1: [[x0, y0], [x1, y0], [x1, y1], [x0, y1]]
+    vec = [{"os": [box(0, 0, 4, 4)], "is": [list(reversed(box(1, 1, 3, 3)))]},
+           {"os": [box(0, 0, 4, 4), box(0, 0, 2, 2)], "is": [list(reversed(box(1, 1, 2, 2)))]},
+           {"os": [box(0, 0, 2, 2)], "is": [list(reversed(box(0, 0, 2, 2)))]}]
+    p = vlib.run([drv, "assemble-replay"], input="\n".join(json.dumps(x) for x in vec) + "\n", check=True)
+    lines = [x for x in p.stdout.splitlines() if x.startswith("{")]
+    ok, _ = records_accept("AssembleTrace", "AssembleTrace.cfg", "assemble_trace.ndjson", lines)
+    report("assemble", "clean records accepted", ok)
+    rec = [json.loads(x) for x in lines]
+    r2 = copy.deepcopy(rec); r2[1]["got"][0].append(r2[1]["got"][1].pop())      # the hole moved to the larger shell
+    ok, why = records_accept("AssembleTrace", "AssembleTrace.cfg", "assemble_trace.ndjson", [json.dumps(x) for x in r2])
+    report("assemble", "hole attached to the other (larger) shell", not ok, why)
+    r2 = copy.deepcopy(rec); r2[0]["got"] = [[r2[0]["got"][0][0]]]                    # the hole dropped: filled
+    ok, why = records_accept("AssembleTrace", "AssembleTrace.cfg", "assemble_trace.ndjson", [json.dumps(x) for x in r2])
+    report("assemble", "hole dropped", not ok, why)
 
 
 def main():
